@@ -239,6 +239,27 @@ IsCoalescing(recs, rs) ==
   /\ \A i \in 1..Len(recs) : recs[i] # <<>> /\ \A j \in 1..Len(recs[i]) : Same(recs[i][1], recs[i][j])
 
 -----------------------------------------------------------------------------
+\* The wire between server and client: the search handler prints the selected results
+\* with ONE label-diffing printer (benchfmt.Printer: keys gone since the previous result
+\* as "k:", new or changed keys as "k: v", then the line); the client reads them with
+\* one Reader that has no server labels.
+
+Wire(rs) ==
+  LET f[i \in 0..Len(rs)] ==
+        IF i = 0 THEN <<>>
+        ELSE LET prev == IF i = 1 THEN EmptyFn ELSE rs[i-1].labels
+                 cur  == rs[i].labels
+                 gone == {k \in DOMAIN prev : k \notin DOMAIN cur}
+                 chg  == {k \in DOMAIN cur : k \notin DOMAIN prev \/ prev[k] # cur[k]}
+                 dels == LET g[S \in SUBSET gone] == IF S = {} THEN <<>> ELSE LET k == CHOOSE k \in S : TRUE IN <<DelL(k)>> \o g[S \ {k}] IN g[gone]
+                 sets == LET g[S \in SUBSET chg] == IF S = {} THEN <<>> ELSE LET k == CHOOSE k \in S : TRUE IN <<SetL(k, cur[k])>> \o g[S \ {k}] IN g[chg]
+             IN f[i-1] \o dels \o sets \o <<BenchL(rs[i].name, rs[i].m)>>
+  IN f[Len(rs)]
+
+\* what the client's reader makes of the printed results
+ReadBack(rs) == FileResults(EmptyFn, Wire(rs))
+
+-----------------------------------------------------------------------------
 \* The store as a whole
 
 \* upload = sequence of files [fname, lines]; store = sequence of uploads
@@ -450,6 +471,15 @@ QueryMeaning ==
 ListingMeaning ==
   Committed => LET view == View(done) IN \A q \in QSetM : \A limit \in 0..2 :
      ~Rejected(q) => ListOperV(view, q, limit) = ListDeclV(view, q, limit)
+
+\* the results selected by a query come back through printer and reader with their
+\* labels, name labels and lines intact (checked for every single-term query and for
+\* the whole store)
+WireRoundTrip ==
+  Committed => LET view == View(done)
+                   all == Flatten([u \in 1..Len(view) |-> view[u].rs])
+               IN \A q \in Singles \cup {<<>>} :
+                    LET sel == SelectSeq(all, LAMBDA r : MatchDecl(r, q)) IN ReadBack(sel) = sel
 
 \* results: server labels present and intact whatever the file says
 ServerLabelsKept ==
